@@ -42,6 +42,10 @@ struct StubProcessInput
     std::vector<std::vector<double>> eloss;  //!< may be empty
     std::vector<std::vector<double>> range;  //!< computed with eloss
     StubInteractParams inter;
+    // When non-empty the process builds a REAL celeritas model instead of the
+    // stub ("klein_nishina", "moller_bhabha"); step limits stay simulator-owned
+    std::string real;
+    std::shared_ptr<celeritas::ParticleParams const> particles;
 };
 
 class StubModel final : public celeritas::Model
